@@ -116,10 +116,20 @@ func (e *FieldExpression) Evaluate(ctx *Context, input system.Collection) (syste
 			message = resource
 		}
 
-		// Get desired field
+		// Get desired field: an element is known by its FHIR name, which is the
+		// JSON name of its field (class_value is "class", lethal_dose50 is
+		// "lethalDose50", carrier_aidc is "carrierAIDC").
 		fieldName := strcase.ToSnake(e.FieldName)
 		reflect := message.ProtoReflect()
-		field := reflect.Descriptor().Fields().ByName(protoreflect.Name(fieldName))
+		field := reflect.Descriptor().Fields().ByJSONName(e.FieldName)
+		if _, isReference := message.(*dtpb.Reference); isReference && fieldName == "reference" {
+			// (in the proto, "reference" is the JSON name of the uri member of the
+			// oneof that holds it; the element is assembled from that oneof below)
+			field = nil
+		}
+		if field == nil && e.Permissive {
+			field = reflect.Descriptor().Fields().ByName(protoreflect.Name(fieldName))
+		}
 
 		// extract field and append to output, flattening
 		// if the field is a list. Raises error if field doesn't exist
@@ -160,13 +170,14 @@ func (e *FieldExpression) Evaluate(ctx *Context, input system.Collection) (syste
 				}
 			}
 
-			// Try again with "_value" added because sometimes Google protos do that
-			// for primitives like:
-			// Observation.ValueX.String --> Observation_ValueX_StringValue
-			fieldName = fieldName + "_value"
-			field = reflect.Descriptor().Fields().ByName(protoreflect.Name(fieldName))
+			if e.Permissive {
+				// Try again with "_value" added because sometimes Google protos do that
+				// for primitives like:
+				// Observation.ValueX.String --> Observation_ValueX_StringValue
+				field = reflect.Descriptor().Fields().ByName(protoreflect.Name(fieldName + "_value"))
+			}
 			if field == nil {
-				return nil, fmt.Errorf("%w: %s not a field on %T", ErrInvalidField, fieldName, message)
+				return nil, e.errField(message)
 			}
 		}
 
@@ -236,12 +247,6 @@ var nonEvaluableFields = []string{
 func (e *FieldExpression) isEvaluable(msg proto.Message) bool {
 	if e.Permissive {
 		return true
-	}
-
-	// Prevent snake_case fields, since all FHIRPath fields need to be in
-	// camelCase.
-	if strcase.ToLowerCamel(e.FieldName) != e.FieldName {
-		return false
 	}
 
 	// Prevent manually accessing idiosynchratic fields from google/fhir like
